@@ -233,6 +233,7 @@ class Gen:
             name = self.pick(MN if in_class else FN, VN + CN + FN)
             decos: List[Any] = []
             wrap = 0
+            odd = False
             if in_class and r.random() < 0.5:
                 wrap = r.choice([1, 2, 3])
                 decos.append([0, [['staticmethod'], ['classmethod'], ['property']][wrap - 1]])
@@ -241,11 +242,12 @@ class Gen:
             if self.out():
                 extra = r.choice([[0, ['staticmethod']], [0, ['classmethod']], [0, ['property']]])
                 decos.insert(0, extra)
+                odd = True
             if name in sc.selfnames and wrap == 3:
                 pass                        # property after `self.name = ..`: the property supersedes the ivar (fine)
             asy = r.random() < 0.2 and wrap != 3
             body = self.fun_body(sc, depth + 1, in_class and wrap in (0, 3))
-            env[name] = ('fun', wrap)
+            env[name] = ('fun', 9 if odd else wrap)
             if wrap == 3:
                 sc.props_defined.add(name)
             else:
@@ -402,5 +404,5 @@ def random_package(rng: random.Random, pkg: str, p_out: float, n_mods: int, size
     for i in range(n_mods):
         g = Gen(rng, p_out if rng.random() < 0.5 else 0.0, max_depth, size)
         body, sc = g.module(rng.randint(2, max(2, size // 2)))
-        mods.append({'name': '__init__' if i == 0 else 'm%d' % (i - 1), 'body': body, 'sub': g.sub, 'corr': True})
+        mods.append({'name': '__init__' if i == 0 else 'sub%d' % (i - 1), 'body': body, 'sub': g.sub, 'corr': True})
     return {'pkg': pkg, 'mods': mods}
